@@ -13,6 +13,7 @@ import EvalexprVerif.Proofs.ParseExpr
 import EvalexprVerif.Proofs.AgreeOperator
 import EvalexprVerif.Proofs.AgreeToken
 import EvalexprVerif.Proofs.LexRoundtrip
+import EvalexprVerif.Proofs.ParseLoose
 
 namespace Evalexpr.Spec.C02
 open Evalexpr Evalexpr.Spec
@@ -92,6 +93,27 @@ theorem C02_string (e : Expr) (ps : List (Gap × PTok)) (g : Gap)
   unfold buildOperatorTree
   rw [Evalexpr.Spec.C07_roundtrip ps g hp ha, hts]
   exact C02_parse e
+
+/-- **C02 (everyday spelling)**: also with a prefix operator written WITHOUT parentheses as the right
+operand of `^` (`2 ^ -3`, `a ^ --b`, `a ^ -f x`) — everywhere except in the shape the property
+excludes (`x ^ -y ^ z`) — the builder returns the promised tree (Spec/AstLoose.lean). -/
+theorem C02_parse_loose (e : Expr) :
+    tokensToOperatorTree (renderL e false) = .ok ⟨.rootNode, [toTreeL e false]⟩ :=
+  Evalexpr.Spec.C02_parse_loose e
+
+theorem C02_string_loose (e : Expr) (ps : List (Gap × PTok)) (g : Gap)
+    (hts : ps.map (·.2.tok) = renderL e false) (hp : ∀ p ∈ ps, p.2.Printable) (ha : Admissible ps g) :
+    buildOperatorTree (renderFrom ps g) = .ok ⟨.rootNode, [toTreeL e false]⟩ := by
+  unfold buildOperatorTree
+  rw [Evalexpr.Spec.C07_roundtrip ps g hp ha, hts]
+  exact C02_parse_loose e
+
+/-- `2 ^ -3` and `a ^ --b` are written without parentheses; `a ^ (-b ^ c)` keeps them -/
+example : renderL (.bin .exp (.lit (.int 2)) (.neg (.lit (.int 3)))) false = [.int 2, .hat, .minus, .int 3] := rfl
+example : renderL (.bin .exp (.var ['a']) (.neg (.neg (.var ['b'])))) false =
+    [.identifier ['a'], .hat, .minus, .minus, .identifier ['b']] := rfl
+example : renderL (.bin .exp (.var ['a']) (.neg (.bin .exp (.var ['b']) (.var ['c'])))) false =
+    [.identifier ['a'], .hat, .lBrace, .minus, .identifier ['b'], .hat, .identifier ['c'], .rBrace] := rfl
 
 /-- redundant parentheses never change the tree's meaning -/
 theorem C02_redundant_parens (e : Expr) : toAstTree (.paren e) = toAstTree e := rfl
